@@ -62,7 +62,7 @@ var profRange = &Profile{
 }
 
 var profRevert = &Profile{
-	Name: "C08-revert", MinOps: 2, MaxOps: 40, NColls: 2, MemPct: 8,
+	Name: "C08-revert", MinOps: 2, MaxOps: 40, NColls: 2, MemPct: 8, BigVals: true,
 	Kinds: []wk{{OpSet, 30}, {OpDel, 8}, {OpFlush, 20}, {OpRevert, 20}, {OpReopen, 8}, {OpEvict, 3}, {OpSetColl, 2}, {OpRmColl, 2}, {OpWrite, 2}, {OpGet, 2}},
 }
 
